@@ -97,7 +97,11 @@ def build(case):
         A = ops.Diagonal(d.copy())
     elif kind in ("tri_lower", "tri_upper"):
         d = spectrum(n, rng, True)
-        U = np.triu(rng.integers(-2, 3, size=(n, n)).astype(float), 1) * 0.5 + np.diag(d)
+        U = np.triu(rng.integers(-2, 3, size=(n, n)).astype(float), 1) * 0.5
+        if n >= 3 and rng.random() < 0.4:  # banded patterns: the first off-diagonal vanishes, entries further out do not
+            U = U - np.diag(np.diag(U, 1), 1)
+            U[0, n - 1] = 1.5
+        U = U + np.diag(d)
         M = U.T.copy() if kind == "tri_lower" else U
         A = ops.Triangular(M.copy(), lower=kind == "tri_lower")
         condx = float(np.linalg.cond(np.linalg.eig(M)[1]))
